@@ -72,6 +72,17 @@ def r13a(ctx, repo):
     me = K.self_name(up)
     ok = len(ia) == 3 and ia[0] == "%s.t[ti]" % me and ia[1].startswith("%s._program_cache['capacities'][" % me) and ia[1].endswith("[ti]")
     ctx.check(ok, "R13a", up, enclosing_stmt(integ[0]), "integrator coverage from the cached capacities at the current step", "update_pars computes coverage from `%s`, not from this step's cached capacity" % ", ".join(ia))
+    # every coverage the integrator uses comes from get_prop_covered or from the precomputed overwrite - no private special case
+    cov_target = None
+    st_ = enclosing_stmt(integ[0])
+    if isinstance(st_, ast.Assign) and isinstance(st_.targets[0], ast.Subscript) and isinstance(st_.targets[0].value, ast.Name):
+        cov_target = st_.targets[0].value.id
+    ctx.require(cov_target is not None, "R13a: the coverage dict filled in update_pars was not recognised")
+    for s_, t_, k_, v_ in astq.stores(up.node):
+        if isinstance(t_, ast.Subscript) and astq.is_name(t_.value, cov_target) and k_ in ("assign", "aug"):
+            vt = ast.unparse(v_)
+            ok = "get_prop_covered(" in vt or ("_program_cache['prop_coverage']" in vt)
+            ctx.check(ok, "R13a", up, s_, "coverage comes from get_prop_covered / the precomputed overwrite", "update_pars sets a program's coverage to `%s` on a path of its own: the run then uses a coverage that Result.get_coverage (which always goes through get_prop_covered) does not report, e.g. when nobody is eligible" % vt[:70])
     rep = [c for c in own_nodes(gc.node) if isinstance(c, ast.Call) and isinstance(c.func, ast.Attribute) and c.func.attr == "get_prop_coverage"]
     ctx.require(len(rep) == 1, "R13a: Result.get_coverage does not call get_prop_coverage exactly once")
     ra = {k: _norm_src(v) for k, v in _call_args(repo, rep[0], gpc).items()}
